@@ -21,10 +21,11 @@ import (
 )
 
 type memAcc struct {
-	expr  ast.Expr
-	write bool
-	isMap bool
-	key   string
+	expr    ast.Expr
+	write   bool
+	isMap   bool
+	isSlice bool // the backing array of a slice value handed to a call
+	key     string
 }
 
 type memPass struct {
@@ -321,10 +322,66 @@ func (m *memPass) pureIndex(e ast.Expr) bool {
 	return false
 }
 
+func (m *memPass) recordSlice(e ast.Expr, write bool) {
+	key := "slice:" + exprString(m.rw.fset, e)
+	for i := range m.accs {
+		if m.accs[i].key == key {
+			if write {
+				m.accs[i].write = true
+			}
+			return
+		}
+	}
+	m.accs = append(m.accs, memAcc{expr: e, write: write, isSlice: true, key: key})
+}
+
+// sliceArg announces the backing array of a slice handed to a call: the callee
+// reads it, and fills it when the call looks like a writer (Read*, Append*, Put*,
+// Encode*, Decode*, Copy*, Fill*, Sum) or when the argument is re-sliced to length 0.
+func (m *memPass) sliceArg(a ast.Expr, writer bool) {
+	t := m.typeOf(a)
+	if t == nil {
+		return
+	}
+	if _, ok := t.Underlying().(*types.Slice); !ok {
+		return
+	}
+	switch x := unparen(a).(type) {
+	case *ast.SliceExpr:
+		if p, _ := m.path(x.X); !p {
+			return
+		}
+		for _, ix := range []ast.Expr{x.Low, x.High, x.Max} {
+			if ix != nil && !m.pureIndex(ix) {
+				return
+			}
+		}
+		if x.High != nil {
+			if tv, ok := m.rw.info.Types[x.High]; ok && tv.Value != nil && tv.Value.String() == "0" {
+				writer = true
+			}
+		}
+		m.recordSlice(a, writer)
+	default:
+		if p, _ := m.path(a); p {
+			m.recordSlice(a, writer)
+		}
+	}
+}
+
+func writerName(n string) bool {
+	for _, p := range []string{"Read", "Append", "Put", "Encode", "Decode", "Copy", "Fill"} {
+		if strings.HasPrefix(n, p) {
+			return true
+		}
+	}
+	return n == "Sum"
+}
+
 func (m *memPass) record(e ast.Expr, write, isMap bool) {
 	key := exprString(m.rw.fset, e)
 	for i := range m.accs {
-		if m.accs[i].key == key && m.accs[i].isMap == isMap {
+		if m.accs[i].key == key && m.accs[i].isMap == isMap && !m.accs[i].isSlice {
 			if write {
 				m.accs[i].write = true
 			}
@@ -458,6 +515,29 @@ func (m *memPass) visit(e ast.Expr, write bool) {
 				m.visit(a, false)
 			}
 			return
+		case "copy":
+			if len(x.Args) == 2 {
+				m.sliceArg(x.Args[0], true)
+				m.sliceArg(x.Args[1], false)
+			}
+		case "append":
+			if len(x.Args) >= 1 {
+				m.sliceArg(x.Args[0], true)
+				for _, a := range x.Args[1:] {
+					m.sliceArg(a, false)
+				}
+			}
+		case "":
+			name := ""
+			switch f := unparen(x.Fun).(type) {
+			case *ast.SelectorExpr:
+				name = f.Sel.Name
+			case *ast.Ident:
+				name = f.Name
+			}
+			for _, a := range x.Args {
+				m.sliceArg(a, writerName(name))
+			}
 		}
 		if sel, ok := unparen(x.Fun).(*ast.SelectorExpr); ok {
 			if s := info.Selections[sel]; s != nil && (s.Kind() == types.MethodVal) {
@@ -666,13 +746,25 @@ func (m *memPass) cp(e ast.Expr) ast.Expr {
 		return &ast.IndexExpr{X: m.cp(x.X), Index: m.cp(x.Index)}
 	case *ast.BasicLit:
 		return &ast.BasicLit{Kind: x.Kind, Value: x.Value}
+	case *ast.SliceExpr:
+		n := &ast.SliceExpr{X: m.cp(x.X), Slice3: x.Slice3}
+		if x.Low != nil {
+			n.Low = m.cp(x.Low)
+		}
+		if x.High != nil {
+			n.High = m.cp(x.High)
+		}
+		if x.Max != nil {
+			n.Max = m.cp(x.Max)
+		}
+		return n
 	}
 	return e
 }
 
 func (m *memPass) memCall(fn string, site string, a memAcc) *ast.CallExpr {
 	var ret ast.Expr
-	if a.isMap {
+	if a.isMap || a.isSlice {
 		ret = m.cp(a.expr)
 	} else {
 		ret = &ast.UnaryExpr{Op: token.AND, X: &ast.ParenExpr{X: m.cp(a.expr)}}
